@@ -298,10 +298,29 @@ _qcache = {}
 
 
 def _z3_run(text, timeout):
+    """portfolio with restarts: z3's nlsat run time on these polynomials varies wildly between runs of the SAME query (9 s alone,
+    > 600 s observed twice); attempts of at most 150 s with different random seeds, both installed versions in parallel each time"""
+    t_all = time.time()
+    attempt_to = max(30, min(timeout, 150))
+    res = None
+    for seed in range(max(1, int(timeout // attempt_to) + 1)):
+        r = _z3_attempt(text, attempt_to, seed)
+        r['secs'] = round(time.time() - t_all, 2)
+        r['attempts'] = seed + 1
+        if r['status'] in ('holds', 'fails'):
+            return r
+        res = r
+        if time.time() - t_all > timeout:
+            break
+    return res
+
+
+def _z3_attempt(text, timeout, seed):
     procs = []
     t0 = time.time()
     for z in Z3S:
-        pr = subprocess.Popen([z, '-in', '-T:%d' % timeout], stdin=subprocess.PIPE, stdout=subprocess.PIPE, stderr=subprocess.DEVNULL, text=True)
+        args = [z, '-in', '-T:%d' % timeout] + (['nlsat.seed=%d' % seed, 'smt.random_seed=%d' % seed, 'sat.random_seed=%d' % seed] if seed else [])
+        pr = subprocess.Popen(args, stdin=subprocess.PIPE, stdout=subprocess.PIPE, stderr=subprocess.DEVNULL, text=True)
         try:
             pr.stdin.write(text); pr.stdin.close()
         except BrokenPipeError:
@@ -324,10 +343,9 @@ def _z3_run(text, timeout):
                 elif res is None:
                     res = {'status': 'unknown', 'detail': out[:160], 'secs': dt, 'solver': z}
                 if res['status'] in ('holds', 'fails'):
-                    pending_kill = pending
-                    pending = []
-                    for _, p2 in pending_kill:
+                    for _, p2 in pending:
                         p2.kill()
+                    pending = []
                     break
         else:
             time.sleep(0.05)
